@@ -60,7 +60,7 @@ def run(ck):
     ck.assumptions = ["std::istream::read semantics (copies the bytes present, sets failbit on a short read) is modelled by `overlay`",
                       "cereal archives are compared with a byte/JSON model written in the driver; nothing is proved about cereal; the text form is compared with the extracted Coq printer",
                       "little-endian host"]
-    return ck.finish(trusted=["coqc 8.16.1 kernel", "extraction + driver.ml (JSON / text printers are driver glue)", "h_serial.cpp harness (guard objects on both sides), ASan/UBSan", "cereal 1.3 headers"], extra_cov={"params_sha": info})
+    return ck.finish(trusted=["coqc 8.16.1 kernel", "extraction + driver.ml (JSON / text printers are driver glue)", "h_serial.cpp harness (guard objects on both sides), ASan/UBSan", "cereal 1.3 headers", "source readers: cxxloop2coq.py + IoSem.v (raw serialisers), cxxtext2coq.py (operator<<), cxxlayout2coq.py (storage layout)"], extra_cov={"params_sha": info})
 
 def replay(ck, rec):
     model, _ = vf.build_model()
